@@ -79,6 +79,22 @@ func cleanPath(s str) str {
 		}
 		out = append(out, b)
 	}
+	// the working directory of the model is /vfs: absolute names below it are the relative names
+	pre := "/vfs"
+	if len(out) >= len(pre) {
+		ok := true
+		for i := 0; i < len(pre); i++ {
+			if !isC(out[i], pre[i]) {
+				ok = false
+			}
+		}
+		if ok && len(out) == len(pre) {
+			return str{s: "."}
+		}
+		if ok && isC(out[len(pre)], '/') {
+			return mkStr(out[len(pre)+1:])
+		}
+	}
 	return mkStr(out)
 }
 
@@ -282,6 +298,12 @@ func init() {
 			if d == nil || !d.isDir {
 				return tuple{slice{}, fsErr(m, "open", dirName, "no such file or directory")}
 			}
+		}
+		if c, ok := dirName.concrete(); ok && c == "/" {
+			// the root of the model holds the working directory and nothing else
+			a := array{iface{t: fakeEntryType, v: &fsInfo{node: &fsNode{name: str{s: "/vfs"}, isDir: true}, base: str{s: "vfs"}}}}
+			obj := m.newObject(a, nil)
+			return tuple{slice{obj: obj, len: 1, cap: 1}, iface{}}
 		}
 		type ent struct {
 			n    *fsNode
@@ -658,6 +680,7 @@ func init() {
 		m.fs = &modelFS{}
 		return nil
 	}
+	harnessAPI["vfsCwd"] = func(m *Machine, fr *frame, fn *ssa.Function, args []value) value { return str{s: "/vfs"} }
 	harnessAPI["vfsDone"] = func(m *Machine, fr *frame, fn *ssa.Function, args []value) value { return nil }
 }
 
